@@ -229,6 +229,40 @@ func TestC08(t *testing.T) {
 				return
 			}
 		}
+		// a character that belongs to no token makes the text ill-formed, wherever it stands
+		if rapid.IntRange(0, 4).Draw(rt, "foreignChar") == 0 && !cs.Layout.Comments {
+			var spots []int
+			for i := 1; i <= len(cs.Text); i++ {
+				ch := cs.Text[i-1]
+				if (ch >= 'a' && ch <= 'z') || (ch >= 'A' && ch <= 'Z') || (ch >= '0' && ch <= '9') || ch == ']' || ch == ')' || ch == '}' || ch == ' ' {
+					if strings.Count(cs.Text[:i], `"`)%2 == 0 {
+						spots = append(spots, i)
+					}
+				}
+			}
+			if len(spots) > 0 {
+				at := rapid.SampledFrom(spots).Draw(rt, "foreignAt")
+				chr := rapid.SampledFrom([]string{"é", "€", "!", ";", "#", "^", "~", "`", "\\", "?", "&", "|", "'", "<", "\x01"}).Draw(rt, "foreignChr")
+				text := cs.Text[:at] + chr + cs.Text[at:]
+				c.Label("must-reject:foreign-character")
+				var err error
+				p := safely(func() { _, err = compiler.Compile(text) })
+				if p != nil {
+					if !c.IsKnown("C08/reject-panic/foreign-character") {
+						rt.Logf("script:\n%s", text)
+						violation(rt, c, "C08/reject-panic/foreign-character", "compiling a text with a character that belongs to no token (%q at %d) panicked: %v", chr, at, p)
+					}
+					return
+				}
+				if err == nil {
+					if !c.IsKnown("C08/ill-formed-accepted/foreign-character") {
+						rt.Logf("script:\n%s", text)
+						violation(rt, c, "C08/ill-formed-accepted/foreign-character", "a text with a character that belongs to no token (%q at offset %d) was compiled instead of refused", chr, at)
+					}
+					return
+				}
+			}
+		}
 		// a binding that is not a decimal amount is refused rather than read in another base
 		if rapid.IntRange(0, 3).Draw(rt, "badBinding") == 0 && impl.Class == numgen.OK {
 			for _, v := range cs.Prog.Vars {
